@@ -111,6 +111,16 @@ CHECKS["C16"] = dict(
          "node/edge/CPD insertion orders, 4 node-name and 6 state-name styles and two hash seeds is compared with the same oracle after relabelling. "
          "Scoring, estimation, structure search, conversion, export and sampling calls are checked for input purity and repeatability on concrete inputs.",
     note="Bounds: <=4 nodes, sequences of length 3 (4 thorough); torch backend and dtype switching are outside the claim.", ref="5/C16")
+CHECKS["C10"] = dict(
+    text="(a) StructureScore.score, ScoreCache.score/local_score/structure_prior(_ratio), the BDs structure prior and metrics-level scoring run with one "
+         "symbolic real per (variable, parent set) on every 3-node DAG: score = sum of local scores + prior, cached = uncached. (b) the real K2Score/"
+         "BDeuScore/BicScore/AICScore.local_score bodies run on a SYMBOLIC count table (every support pattern with an unobserved parent configuration "
+         "and/or a declared-but-unobserved child state), log-gamma/log as uninterpreted functions and a symbolic equivalent sample size; the result is "
+         "shown equal (congruence + arithmetic) to the published closed form written with the same uninterpreted functions, for every parent listing "
+         "order; BDeu/BIC/AIC score equivalence of X->Y and Y->X from one symbolic joint count table. Every scenario is re-run on a real pandas frame "
+         "with integer counts and the real special functions (concrete twin), which validates the count-table stub.",
+    note="Partial: numeric values of gammaln/log and pandas counting itself are outside the solver claim (covered only by the concrete twin); BDs local "
+         "score and the Gaussian scores are not claimed. Bounds: child with <=2 parents, cards<=3.", ref="5/C10")
 
 NOT_APPLICABLE = {
     "C19": "statistic, dof and p-value are produced inside pandas.groupby / numpy.bincount / scipy.stats.chi2_contingency / chi2.cdf "
